@@ -65,6 +65,7 @@ PROPS = {
     "C16": {
         "level": "proof",
         "rules": ["R-SURFACE", "R-APIBOUNDS"],
+        "all_feature_sets_in_quick": True,
         "witnesses": ["W-API"],
         "explanation": "A frozen downstream crate names every public item of 6.4.1 with explicit signature ascriptions, trait bounds and "
                        "auto-trait obligations and must type-check against /repo under every cargo feature set; the exported name "
